@@ -22,6 +22,25 @@ CHECKS = {
             "inventory of exec/eval/compile/import sites",
             "CPython re / str.format semantics as modelled (automaton model cross-checked against re at start-up); "
             "validated names are str", "DESIGN.md 3/C06"),
+    "C01": ("sibling-agreement tables between encoder and decoder: sub-type sets, payload arities, per-type _pack/_unpack arity and discriminators; "
+            "template-loop provenance; struct-format folding; AST check of generated code fragments",
+            "emitted == handled sub-types; payload arity agreement per sub-type; _pack/_unpack agreement per field type; flavour tags; one "
+            "ordered source for slots/args/unpack; frame prefix format/size/len-of-body agreement; generated _unpack guards with `is not None`; "
+            "_pack excludes only by explicit argument",
+            "msgpack round-trips the shapes it is given", "DESIGN.md 3/C01"),
+    "C02": ("constant folding of every format fact at its point of use on both sides against a format-facts table; dataflow walk of the identifier hash; "
+            "symbolic (linear) evaluation of the compatibility truncation",
+            "ext type, sub-types by role, length format, magic, msgpack options and hooks, varint byte order; hash construction and input order; "
+            "reserved-field order; header depth; compatibility branch keeps declared+reserved values with the original last value; one value per slot",
+            "the format-facts table transcribes the published format", "DESIGN.md 3/C02"),
+    "C03": ("registry ownership (effect) analysis; dominance of emit-if-new over packing; event-handler chain resolution; injectivity of the hash input structure; branch facts of reader registration",
+            "per-instance grow-only registries; emit-before-use for the record and every grouped member; register(notify) reaches the writer's descriptor "
+            "write; pack precedes the frame write; identifier injectivity (known finding F03); readers register every descriptor frame unconditionally",
+            "msgpack/json call the default hook depth-first", "DESIGN.md 3/C03"),
+    "C04": ("CFG of the frame loop: generator/yield placement, exception-handler placement rule, raise-site inventory, def-use of the decoder's input, write ordering; wrapper-layer rule for decompressors",
+            "lazy in-order delivery; only EOFError swallowed, outside the loop; exact-boundary prefix test; body = fresh read(size); writer builds the body "
+            "before writing prefix+body; no buffering layer around raising decompressors",
+            "msgpack rejects truncated bodies; decompressors raise on truncation", "DESIGN.md 3/C04"),
     "C05": ("who-may-call inventory of raw-store primitives; path enumeration to the slot store; interval reading of range guards; "
             "store-before-raise path rule with a no-throw refinement; dominator queries",
             "slots written only through Record.__setattr__; every path to the store converts or carries a legitimate bypass; "
@@ -29,6 +48,10 @@ CHECKS = {
             "dominates every return of datetime.__new__; typed lists convert every non-instance element",
             "constructors of field types are trusted to return values of their type; plain name-to-attribute assignments cannot raise",
             "DESIGN.md 3/C05"),
+    "C12": ("class-hierarchy analysis of call shapes vs. override signatures; argument-identity of the eq/hash projections; shape evaluation of all _pack methods vs. normaliser depth; pairing rule on the context manager; alias/mutation scan of the configuration object",
+            "overrides accept the calls made on arbitrary Records; __eq__/__hash__ use the same _pack projection reading the global at call time; hash "
+            "normaliser closed over all packed shapes; __eq__ total; scoped override restored on all exits and the saved value cannot be mutated in place",
+            "tuple hashing; generated classes inherit Record's methods", "DESIGN.md 3/C12"),
     "C07": ("AST-field coverage matrix of the interpreter against ast.<K>._fields; operator-table comparison; delegation shape of special methods",
             "every semantically relevant field of every handled AST node kind is read and list fields are consumed entirely; "
             "operator/comparator tables map each ast class to Python's operator; membership lambdas pass the container first; "
